@@ -49,7 +49,13 @@ func (e *E0) Error() string {
 	return fmt.Sprintf("E0(%d)", e.ID)
 }
 
+// L0 and the unnamed []int are distinct types that Go lets be assigned to one another (same underlying type,
+// one of them unnamed): the library must not treat one as the other
+type L0 []int
+
 const (
+	tyL0    = 21
+	tyLU    = 22
 	tyI0    = 10
 	tyI1    = 11
 	tyI2    = 12
@@ -70,6 +76,8 @@ var poolTypes = map[int]reflect.Type{
 	tyI3:    reflect.TypeOf((*I3)(nil)).Elem(),
 	tyE0:    reflect.TypeOf((*E0)(nil)),
 	tyError: errType,
+	tyL0:    reflect.TypeOf(L0{}),
+	tyLU:    reflect.TypeOf([]int{}),
 }
 
 var (
@@ -134,6 +142,10 @@ func mkValue(id, vid, dyn int) reflect.Value {
 		return v
 	case id == tyE0:
 		return reflect.ValueOf(&E0{ID: vid})
+	case id == tyL0:
+		return reflect.ValueOf(L0{vid})
+	case id == tyLU:
+		return reflect.ValueOf([]int{vid})
 	case t.Kind() == reflect.Interface:
 		impl := implementers(id)
 		if len(impl) == 0 {
@@ -157,6 +169,12 @@ func vidOf(v reflect.Value) int {
 			return 0
 		}
 		v = v.Elem()
+	}
+	if v.IsValid() && v.Kind() == reflect.Slice && v.Type().Elem().Kind() == reflect.Int {
+		if v.Len() == 0 {
+			return 0
+		}
+		return int(v.Index(0).Int())
 	}
 	if !v.IsValid() || v.Kind() != reflect.Struct || v.NumField() == 0 || v.Field(0).Kind() != reflect.Int {
 		return 0
